@@ -117,7 +117,10 @@ def stages(tier, seed):
     # the other cfg_digit! arm (32-bit digits: plain u32 iterator, chunked u64 iterator) and a big-endian target
     rnd = rng_for(seed, 'C09x', tier)
     pool = portable(cmds)
-    sub = rnd.sample(pool, min(len(pool), 500 if tier == 'quick' else 4000))
+    # stratified: every short iterator call sequence (depth <= 2, each value, both widths, last and count) ...
+    short = [c for c in pool if isinstance(c.cell, tuple) and c.cell[0] == 'iter' and len(c.cell[3]) <= (2 if tier == 'quick' else 3)]
+    rest = [c for c in pool if c not in set(short)] if len(short) < 5000 else pool
+    sub = short + rnd.sample(rest, min(len(rest), 350 if tier == 'quick' else 3000))
     st += cross_stages('C09', sub, dict(label='x-rel', variant='rel'),
                        [dict(label='miri-i686', variant='miri-i686', tool='miri:i686', shard_min=8, timeout=1500)] +
                        ([dict(label='miri-s390x', variant='miri-s390x', tool='miri:s390x', shard_min=8, timeout=1500)] if tier != 'quick' else []),
